@@ -287,6 +287,33 @@ def systematic():
                         f["default"] = "null"; f["nullableVersions"] = "0+"
                     sf.append(f)
     defs.append({"type": "data", "name": "SysStructsData", "validVersions": "0-3", "flexibleVersions": "2+", "fields": sf})
+    # tagged structs whose members ALL carry defaults (the generator then gives the field the struct of member defaults
+    # as its default): member kinds primitive / nullable primitive / nullable nested struct defaulting to null /
+    # one member without default (no struct default then), ignorable or not, tagged from the start or later
+    df = []
+    k = 0
+    for members in ("prims", "prims+nullstruct", "prims+nodefault", "nullstruct-only"):
+        for ign in (False, True):
+            for tagged in ("2+", "3+"):
+                k += 1
+                ms = []
+                if members != "nullstruct-only":
+                    ms += [{"name": "LeaderId", "type": "int32", "versions": "0+", "default": "-1"},
+                           {"name": "Host", "type": "string", "versions": "0+", "default": ""},
+                           {"name": "Rack", "type": "string", "versions": "0+", "nullableVersions": "0+", "default": "null"}]
+                if members in ("prims+nullstruct", "nullstruct-only"):
+                    ms.append({"name": f"Endpoint{k}", "type": f"D{k}Endpoint", "versions": "0+", "nullableVersions": "0+", "default": "null",
+                               "fields": [{"name": "Port", "type": "int32", "versions": "0+"}]})
+                if members == "prims+nodefault":
+                    ms.append({"name": "Epoch", "type": "int32", "versions": "0+"})
+                f = {"name": f"D{k}Field", "type": f"D{k}Struct", "versions": tagged, "taggedVersions": tagged, "tag": k, "fields": ms}
+                if ign:
+                    f["ignorable"] = True
+                df.append(f)
+    defs.append({"apiKey": 2100, "type": "response", "name": "SysDefaultedStructsResponse", "validVersions": "0-3", "flexibleVersions": "2+",
+                 "fields": [{"name": "ErrorCode", "type": "int16", "versions": "0+"}] + df})
+    defs.append({"apiKey": 2100, "type": "request", "name": "SysDefaultedStructsRequest", "validVersions": "0-3", "flexibleVersions": "2+",
+                 "fields": [{"name": "Anchor", "type": "int32", "versions": "0+"}]})
     return defs
 
 
